@@ -192,8 +192,11 @@ var (
 		{{Name: "textures", Value: "dmFsdWU=", Signature: "c2lnbmF0dXJl"}},
 		{{Name: "textures", Value: "dmFsdWU=", Signature: "c2ln"}, {Name: "forgeClient", Value: "true"}},
 		{{Name: "ünï\"cödé", Value: string(bytes.Repeat([]byte("x"), 300)), Signature: "日本"}},
+		{{Name: "", Value: ""}, {Name: "empty-value", Value: ""}, {Name: "", Value: "empty-name", Signature: "s"}}, // empty strings: present-but-empty vs absent
+		{{Name: "a", Value: "1"}, {Name: "a", Value: "2"}, {Name: "a", Value: "1"}},                                    // repeated names / identical entries keep order and multiplicity
 	}
-	secrets = [][]byte{[]byte("s"), []byte("0123456789abcdef0123456789abcdef"), bytes.Repeat([]byte{0xfe, 0x01}, 50), {0}}
+	// HMAC-SHA256 treats keys of up to 64 bytes (one block) and longer keys differently; the empty key is legal
+	secrets = [][]byte{[]byte("s"), []byte("0123456789abcdef0123456789abcdef"), bytes.Repeat([]byte{0xfe, 0x01}, 50), {0}, {}, bytes.Repeat([]byte("k"), 63), bytes.Repeat([]byte("k"), 64), bytes.Repeat([]byte("K"), 65)}
 	ips     = []string{"203.0.113.7", "2001:db8::8a2e:370:7334", "127.0.0.1", "::1"}
 	names   = []string{"Steve", "a", "ABCDEFGHIJKLMNOP", "Ünïcödé_Nämé_16x"}
 	id      = uuid.UUID{0x12, 0x34, 0x56, 0x78, 0x9a, 0xbc, 0x4d, 0xef, 0x80, 0x12, 0x34, 0x56, 0x78, 0x9a, 0xbc, 0xde}
